@@ -60,6 +60,7 @@ func rulesC01(w *World, r *Report) {
 	w.ruleFieldDispatchers(r, "C01.R2 field dispatchers accept what the writers emit")
 	w.ruleTypeSlots(r, "C01.R2 type slots: literal, or numbered like the decoder numbers them")
 	w.ruleNoDoubleWrap(r, "C01.R5 a carrier is never wrapped twice")
+	w.ruleNoGetterOnInvalid(r, "C01.R6 no reflect accessor on a Value that may be the zero Value")
 	// R3
 	for _, x := range []struct {
 		fn     string
